@@ -168,6 +168,10 @@ def main():
                 for form in ("constant", "callable", "nodal"):
                     deg = 0 if form == "constant" else rng.randint(1, order)
                     polys = [Poly(rng, deg, dim) for _ in unknowns]
+                    nodes = np.sort(nodes)
+                    if form == "nodal" or rng.random() < 0.3:
+                        # a selection is a set of nodes: any listing order (unions of selections, nodes ordered along a line) is legitimate
+                        nodes = nodes[np.array(rng.sample(range(len(nodes)), len(nodes)), dtype=int)]
                     if form == "constant":
                         values = [float(p.terms[0][0]) for p in polys]
                         for p in polys:
@@ -186,7 +190,7 @@ def main():
                         vals = [np.concatenate([v, 7.0 * np.ones(len(strays))]) for v in values]
                     simu.Bc_Init()
                     ident = dict(elemType=et, sim=kind, load=fname, region=rname, form=form, density=[repr(p) for p in polys],
-                                 A=A.tolist(), t=t.tolist(), thickness=thickness, strays=[int(s) for s in strays])
+                                 A=A.tolist(), t=t.tolist(), thickness=thickness, strays=[int(s) for s in strays], node_order="shuffled" if np.any(np.diff(nodes) < 0) else "ascending")
                     try:
                         call_load(simu, kind, fname, sel, vals, unknowns)
                         F = np.asarray(nvec_of(simu, kind)).reshape(mesh.Nn, ncomp)
